@@ -17,7 +17,7 @@ def main():
             print('MANIFEST.json validates')
     except ImportError:
         print('jsonschema not available to this python; skipped schema validation')
-    res = vlib.lean_build(('LcdbModel', 'modeld'))
+    res = vlib.lean_build(('LcdbModel', 'modeld', 'tracecheck'))
     print(res.log[-2000:])
     if not res.ok:
         print('lean build failed')
@@ -26,6 +26,7 @@ def main():
         d = vlib.build_repo(v)
         print('built', d)
     vlib.build_harness('unit', 'asan', exclude=['util/crc32c.c'])
+    vlib.build_harness('wl', 'asan', exclude=['db_impl.c'])
     return 0
 
 
